@@ -79,7 +79,7 @@ type attemptSpec struct {
 }
 
 type position struct {
-	// never-subscribed, before, attempt-start, in-subscribe, after-msg, blocked,
+	// never-subscribed, before, timed, attempt-start, in-subscribe, after-msg, blocked,
 	// at-disconnect, in-backoff, after-reset (and next-recv for the follow-up
 	// Close of a bare client whose first Close came before initialisation).
 	Kind    string `json:"kind"`
@@ -148,6 +148,8 @@ func combos() []combo {
 				out = append(out, combo{w, t, "before", 0, k, 0})
 				if rc {
 					out = append(out, combo{w, t, "before", 1, k, 0})
+					// not forced: Close after a seeded delay, wherever the client is then
+					out = append(out, combo{w, t, "timed", 0, k, 0})
 				}
 			}
 			as := []int{0}
@@ -187,11 +189,13 @@ func genMsgs(rng *rand.Rand, transport string, k int) []msgSpec {
 				out = append(out, msgSpec{Sync: true})
 				continue
 			}
-			m := msgSpec{U: rng.Intn(4), D: rng.Intn(3)}
-			if m.U+m.D == 0 {
-				m.U = 1
+			// Updates or deletes, never both in one message: the statement
+			// fixes no order between the two lists of one notification.
+			if rng.Intn(4) == 0 {
+				out = append(out, msgSpec{D: 1 + rng.Intn(3)})
+			} else {
+				out = append(out, msgSpec{U: 1 + rng.Intn(3)})
 			}
-			out = append(out, m)
 		default:
 			out = append(out, msgSpec{U: 1 + rng.Intn(3)})
 		}
@@ -220,6 +224,9 @@ func genCase(cbs []combo, trial int, rng *rand.Rand) caseSpec {
 	attemptBound := cb.PosKind != "never-subscribed" && cb.PosKind != "before"
 	if rich && rc && attemptBound && rng.Intn(3) == 0 {
 		a = rng.Intn(5)
+	}
+	if cb.PosKind == "timed" {
+		a = rng.Intn(3)
 	}
 	for i := 0; i < a; i++ {
 		s.Script = append(s.Script, genAttempt(rng, cb.Transport, endKinds[rng.Intn(len(endKinds))], rng.Intn(5)))
@@ -273,7 +280,7 @@ func genCase(cbs []combo, trial int, rng *rand.Rand) caseSpec {
 		s.Buffered = []int{0, 0, 1, 2, 3, -1, -1}[rng.Intn(7)]
 		s.LaxConnect = s.Buffered == -1 || rng.Intn(4) == 0
 	}
-	if cb.PosKind == "before" && cb.Transport != "gnmi" {
+	if (cb.PosKind == "before" || cb.PosKind == "timed") && cb.Transport != "gnmi" {
 		// A Subscribe issued on an already closed client gets a cancelled
 		// context from the start; a well-behaved transport fails to connect with
 		// it (clause 5 is about streams that were running when Close came).
@@ -291,6 +298,15 @@ func genCase(cbs []combo, trial int, rng *rand.Rand) caseSpec {
 		}
 	case "blocked":
 		s.CloserDelayUS = rng.Intn(2000)
+	case "timed":
+		switch rng.Intn(5) {
+		case 0:
+			s.CloserDelayUS = 3000 + rng.Intn(40000)
+		case 1:
+			s.CloserDelayUS = 40000 + rng.Intn(700000)
+		default:
+			s.CloserDelayUS = 1 + rng.Intn(3000)
+		}
 	}
 	return s
 }
@@ -348,6 +364,7 @@ type kase struct {
 	closeRet           bool // an effective Close has returned
 	cancelCall         bool
 	lastCallAt         time.Time // latest close-call or cancel-call
+	callBeat           int64
 	afterClose         map[int]bool
 	lastDiscAt         time.Time
 	haveDisc           bool
@@ -401,21 +418,23 @@ func (c *kase) record(kind, what string) int {
 			if !c.closeCalled && !c.cancelCall {
 				c.bad("subscribe-returned-unclosed", fmt.Sprintf("Subscribe of a ReconnectClient returned (%s) although neither Close was called nor its context cancelled: the client stopped resubscribing", what))
 			}
-			if c.discs != c.attempts {
-				c.bad("attempt-without-disconnect", fmt.Sprintf("Subscribe returned after %d attempt(s) but %d disconnect callback(s)", c.attempts, c.discs))
+			if c.discs < c.attempts {
+				c.bad("attempt-without-disconnect", fmt.Sprintf("Subscribe returned after %d attempt(s) but only %d disconnect callback(s)", c.attempts, c.discs))
+			} else if c.discs > c.attempts {
+				c.bad("disconnect-twice", fmt.Sprintf("Subscribe returned after %d attempt(s) but %d disconnect callback(s)", c.attempts, c.discs))
 			}
 			c.r.Count("oracle_disconnect_per_attempt_checked", 1)
 		}
 	case "close-call":
 		c.closeCalled, c.closeOutstanding = true, true
-		c.lastCallAt = now
+		c.lastCallAt, c.callBeat = now, c.lastBeat
 		c.closeState = c.state
 		if c.state == stDisc {
 			c.inBackoffAtClose = true
 		}
 	case "cancel-call":
 		c.cancelCall = true
-		c.lastCallAt = now
+		c.lastCallAt, c.callBeat = now, c.lastBeat
 		c.closeState = c.state
 		if c.state == stDisc {
 			c.inBackoffAtClose = true
@@ -782,6 +801,12 @@ func (w *impl) Recv() error {
 		c.at("blocked", w.a, 0, false)
 	}
 	if idx > k {
+		// The previous Recv reported the end of the stream (error / EOF).
+		c.mu.Lock()
+		if !c.final {
+			c.bad("read-after-stream-end", fmt.Sprintf("attempt %d: Recv was called again after it had reported the end of the stream (%s): the attempt was not ended", w.a, w.at.Kind))
+		}
+		c.mu.Unlock()
 		return errScripted
 	}
 	if w.ctx.Err() != nil || w.isClosed() {
@@ -989,7 +1014,7 @@ func runCase(r *vlib.Run, trial int, spec caseSpec) {
 		defer panicked("Close")
 		return cl.Close()
 	}
-	immediate := spec.Pos.Kind == "never-subscribed" || spec.Pos.Kind == "before"
+	immediate := spec.Pos.Kind == "never-subscribed" || spec.Pos.Kind == "before" || spec.Pos.Kind == "timed"
 	g0 := c.arm(spec.Pos, immediate)
 	firstCloseDone := make(chan struct{})
 	var firstOnce sync.Once
@@ -1143,7 +1168,12 @@ func (c *kase) judgeStuck() {
 	dump := string(buf[:runtime.Stack(buf, true)])
 	c.mu.Lock()
 	defer c.mu.Unlock()
+	// The process must have been running normally during the window that
+	// expired: since the last event (idle), or since the call (deadline).
 	beats := atomic.LoadInt64(&heartbeat) - c.lastBeat
+	if time.Since(c.lastEvent) <= grace {
+		beats = atomic.LoadInt64(&heartbeat) - c.callBeat
+	}
 	rc := c.spec.rc()
 	var sig, what string
 	var awaited []string
@@ -1251,6 +1281,9 @@ func (c *kase) finish(stuck bool) {
 				subRetAt = e.AtUS
 			}
 		}
+		if closeRetAt >= 0 && callAt >= 0 && closeRetAt-callAt > 1000000 {
+			r.Count(fmt.Sprintf("DEBUG_slow_shardmod%d_%s_%s_%s", r.Shard%4, c.spec.Wrapper, c.spec.Transport, c.spec.Pos.Kind), 1)
+		}
 		if closeRetAt >= 0 && callAt >= 0 {
 			r.Count("close_to_close_return_"+bucket(time.Duration(closeRetAt-callAt)*time.Microsecond), 1)
 		}
@@ -1293,13 +1326,20 @@ func body(r *vlib.Run) {
 			atomic.AddInt64(&heartbeat, 1)
 		}
 	}()
+	// Some shards run on fewer Ps: more preemption-driven interleavings.
+	switch r.Shard % 4 {
+	case 1:
+		runtime.GOMAXPROCS(4)
+	case 3:
+		runtime.GOMAXPROCS(2)
+	}
 	cbs := combos()
 	type job struct {
 		trial int
 		spec  caseSpec
 	}
 	var jobs []job
-	r.ForTrials("case", r.N(len(cbs)+240, 10000), func(trial int, rng *rand.Rand) {
+	r.ForTrials("case", r.N(5*len(cbs), 150000), func(trial int, rng *rand.Rand) {
 		jobs = append(jobs, job{trial, genCase(cbs, trial, rng)})
 	})
 	if r.Shard == 0 {
@@ -1325,8 +1365,8 @@ func body(r *vlib.Run) {
 
 func postMerge(tier string, counters map[string]int64) []string {
 	var out []string
-	for _, k := range []string{"never-subscribed", "before", "attempt-start", "in-subscribe", "after-msg", "blocked", "at-disconnect", "in-backoff", "after-reset"} {
-		if k == "never-subscribed" || k == "before" {
+	for _, k := range []string{"never-subscribed", "before", "timed", "attempt-start", "in-subscribe", "after-msg", "blocked", "at-disconnect", "in-backoff", "after-reset"} {
+		if k == "never-subscribed" || k == "before" || k == "timed" {
 			if counters["cases_position_"+k] == 0 {
 				out = append(out, "Close position "+k+" was never exercised")
 			}
@@ -1348,7 +1388,7 @@ func postMerge(tier string, counters map[string]int64) []string {
 func main() {
 	vlib.Main(&vlib.Spec{
 		ID:   "C18",
-		Rule: "Each case: the real BaseClient / CacheClient, bare or wrapped in the real ReconnectClient (disconnect and reset callbacks recorded), over a scripted client.Impl registered under its own type name; the Impl wraps one of three transports (purely scripted; the repository's client/fake Client; the real client/gnmi Client via NewFromConn against a scripted bufconn gNMI server) and plays a per-attempt script: fail in New / fail in Subscribe / deliver k numbered messages (1-3 notifications each; updates, deletes, syncs on gnmi) then error / EOF (io.EOF or ErrStopReading) / block. The transport is well-behaved (blocking reads return on context cancellation and on Close) and differs by seed in how many already received messages it still hands over after cancel/Close (0-3, or all). Close (1 in 7: cancellation of the Subscribe context, then Close) is issued from another goroutine at a FORCED position (the Impl or callback parks there until the harness has entered Close): never subscribed, before Subscribe (sequential / concurrent), attempt start, inside Impl.Subscribe, after the j-th message (first / middle / last), in a blocked read, inside the disconnect callback, during the backoff sleep, right after reset. The quick tier enumerates every wrapper x transport x position x outcome kind (x first / second attempt) once, seeded random scripts (up to 7 attempts) beyond. A case is distinct non-trivial when Close or cancel was issued and both returns were observed, by the hash of its description and its event-kind trace.",
+		Rule: "Each case: the real BaseClient / CacheClient, bare or wrapped in the real ReconnectClient (disconnect and reset callbacks recorded), over a scripted client.Impl registered under its own type name; the Impl wraps one of three transports (purely scripted; the repository's client/fake Client; the real client/gnmi Client via NewFromConn against a scripted bufconn gNMI server) and plays a per-attempt script: fail in New / fail in Subscribe / deliver k numbered messages (1-3 notifications each; updates, deletes, syncs on gnmi) then error / EOF (io.EOF or ErrStopReading) / block. The transport is well-behaved (blocking reads return on context cancellation and on Close) and differs by seed in how many already received messages it still hands over after cancel/Close (0-3, or all). Close (1 in 7: cancellation of the Subscribe context, then Close) is issued from another goroutine at a FORCED position (the Impl or callback parks there until the harness has entered Close): never subscribed, before Subscribe (sequential / concurrent), unforced after a seeded delay (timed), attempt start, inside Impl.Subscribe, after the j-th message (first / middle / last), in a blocked read, inside the disconnect callback, during the backoff sleep, right after reset. The quick tier enumerates every wrapper x transport x position x outcome kind (x first / second attempt) once, seeded random scripts (up to 7 attempts) beyond. A case is distinct non-trivial when Close or cancel was issued and both returns were observed, by the hash of its description and its event-kind trace.",
 		Assumptions: []string{
 			"client.RetryBaseDelay/RetryMaxDelay are set to 10/20 ms before any ReconnectClient is created; the first backoff of each client still comes from the backoff library's 500 ms default (250-750 ms) and is tolerated",
 			"termination is restated as bounded progress: a violation only when no event at all was recorded for 20 s (1000 x RetryMaxDelay) after Close/cancel (or after an ended attempt of an unclosed client), the process heartbeat kept running, and the goroutine dump shows the awaited call; otherwise inconclusive. The statement's 'within the current backoff interval' is only reported as latency histograms",
@@ -1358,7 +1398,7 @@ func main() {
 			"after both calls returned the trace is observed for 2 ms more; later deliveries would be missed (never a false alarm)",
 		},
 		QuickShards: 8, ThoroughShards: 16,
-		MinDistinctQuick: 300, MinDistinctThorough: 4000,
+		MinDistinctQuick: 1500, MinDistinctThorough: 60000,
 		PostMerge: postMerge,
 		Body:      body,
 	})
